@@ -627,8 +627,9 @@ def graphOp (toks : List S) : S :=
     let l := match buildListRequest g (some [{ name := b!"items", field := .array (.object (idx root)) }]) with
       | some (.ok lr) => some (csv (lr.search.map fun p => ".".intercalate (names p)) "-")
       | _ => none
-    let k := match clientSchemas g { entities := [], services := [[{ request := [.object unlinked],
-          response := some [.array (.object (idx root))] }]] } with
+    let mroots : MethodRoots := { request := [.object unlinked], response := some [.array (.object (idx root))] }
+    let proots : PackageRoots := { entities := [], services := [[mroots]] }
+    let k := match clientSchemas g proots with
       | some (.ok is) => some (csv (sortStrings (is.filterMap fun i => (nodes[i]?).map (·.1))) "-")
       | _ => none
     match l, k with
@@ -659,6 +660,26 @@ def swagOp (toks : List S) : S :=
     | .err _ => "err"
     | .panic _ => "panic"
   | _ => "bad-op"
+
+/-- paths op: `<n> (<VERB> <pathHex>)*` → the `paths` object of the OpenAPI document, in order -/
+def pathsOp (toks : List S) : S :=
+  let p : P (List SOp) := do
+    let n ← num
+    let ops ← rep n (do
+      let v ← tok
+      let path ← hexTok
+      match verbOf v with
+      | some _ => pure { verb := v.toLower, path : SOp }
+      | none => failure)
+    if (← get).isEmpty then pure ops else failure
+  match p.run toks with
+  | some (ops0, _) =>
+    -- the harness puts the methods alternately into two services; `BuildSwagger` goes service by service
+    let idx := ops0.zipIdx
+    let ops := (idx.filter (·.2 % 2 == 0)).map (·.1) ++ (idx.filter (·.2 % 2 == 1)).map (·.1)
+    let items := groupOps ops
+    "ok " ++ csv (items.map fun item => toHexW (PathItem.key item) ++ "=" ++ "+".intercalate (item.map (·.verb))) "-"
+  | none => "bad-op"
 
 def step (line : S) : S :=
   match line.trimAscii.toString.splitOn " " with
@@ -698,6 +719,7 @@ def step (line : S) : S :=
     | _, _, _, _ => "bad-op"
   | "graph" :: rest => graphOp rest
   | "swag" :: rest => swagOp rest
+  | "paths" :: rest => pathsOp rest
   | _ => "bad-op"
 
 partial def loop (h : IO.FS.Stream) (out : IO.FS.Stream) : IO Unit := do
